@@ -135,6 +135,23 @@ impl Barrier {
     }
 }
 
+#[cfg(feature = "verif-hooks")]
+impl Barrier {
+    /// Inner mutex word, `count`, `generation_id`; listeners of the inner mutex and of `event`.
+    ///
+    /// Must only be called while no `wait` is being polled (the counters are read unlocked).
+    #[doc(hidden)]
+    pub fn __verif_snapshot(&self) -> crate::__verif::Snapshot {
+        let mut snap = self.state.__verif_snapshot();
+        // SAFETY: the caller guarantees that nobody holds the inner mutex.
+        let state = unsafe { &*self.state.__verif_data() };
+        snap.words.push(state.count);
+        snap.words.push(state.generation_id as usize);
+        snap.events.push(crate::__verif::event(&self.event));
+        snap
+    }
+}
+
 easy_wrapper! {
     /// The future returned by [`Barrier::wait()`].
     pub struct BarrierWait<'a>(BarrierWaitInner<'a> => BarrierWaitResult);
